@@ -282,11 +282,13 @@ class Vector(Base):
         return np.sum([xyz.nbytes for xyz in self._xyz.values()])
 
     def dot(self, other):
-        out = np.zeros(self.shape)
+        if self.nvec != other.nvec:
+            raise ValueError("Operands do not have the same number of components.")
+        out = 0.0
         unit = self.unit * other.unit
         for c1, c2 in zip(self._xyz.values(), other._xyz.values()):
             prod = c1 * c2
-            out += prod.values
+            out = out + prod.values
             unit = prod.unit
         return Array(values=out, unit=unit)
 
